@@ -308,6 +308,12 @@ def run_round(pid, cfg, outdir, seed, tier, log, mode="gen", casefile=None):
     hx, dx = harness_exe(cfg, pid), driver_exe(cfg, pid)
     tmo = cfg.get("gen_timeout", 1500 if tier == "quick" else 6000)
     if mode == "gen":
+        if cfg.get("driver_gen"):
+            # the model side generates part of the cases (schema walk); the harness executes them and adds its own
+            rc, out = sh("ulimit -s unlimited 2>/dev/null; %s gen %s %s %s/model_cases.txt" % (dx, seed, tier, outdir), cwd=ROOT, timeout=tmo, env=env)
+            log.write("== driver gen rc=%d\n%s\n" % (rc, out[-2000:]))
+            if rc != 0:
+                return None, "model-side case generation exited with %d: %s" % (rc, out[-300:])
         rc, out = sh("%s gen %s" % (hx, outdir), cwd=ROOT, timeout=tmo, env=env)
     else:
         sh("cp %s %s/cases.txt" % (casefile, outdir))
